@@ -151,10 +151,10 @@ def classify(r):
     kind = r["case"].split(":", 1)[1].split("@")[0]
     phase = r["case"].rsplit("@", 1)[1]
     if r["status"] == "accepted":
-        if r["annot"] == "union": return "D9"
+        if r["annot"] == "union" and ".fixed_nb_of_instances:" in r["case"]: return "D9"      # the parameters that are union-annotated on the pinned tree
         if kind == "list-with-wrong-class" and phase == "construct": return "D17"
     if r["status"] == "refused-but-model-changed" and kind in ("outside-allowed-list", "no-value-for-a-restricted-parameter"): return "D8"
-    if r["status"] == "refused-but-model-changed" and r["annot"] == "union": return "D9"
+    if r["status"] == "refused-but-model-changed" and r["annot"] == "union" and ".fixed_nb_of_instances:" in r["case"]: return "D9"
     return f"C14|{r['case']}|{r['status']}|{','.join(r['diff'])[:200]}"
 
 
